@@ -120,6 +120,18 @@ CHECKS = {
              "QueueLimit is raised so that hostile mutators cannot legitimately cancel the state-based disposal mutations.",
         technique="runtime monitor: gate-placed disposal at verif schedule points, post-dispose assertion battery with watchdogs, goroutine-dump inspection, child-process crash attribution",
         engine="concmach", design_ref="5/C13"),
+    "C08": dict(
+        level="fault_enumeration",
+        text="For every generated (schema, handler bindings incl. the Exception handlers, pre-history, target mutation) case a fault-free run enumerates all handler calls of the target "
+             "mutation and of the auto/exception transitions in the same call as positions (binding, handler, occurrence). One run per position x {panic(error), panic(string), stall "
+             "acknowledged after HandlerTimeout} plus sampled {stall beyond HandlerDeadline, the same position faulting up to 3 times, a second fault in ExceptionEnter/ExceptionState}. "
+             "Each run asserts: nothing escapes to the caller, the call returns (else goroutine-dump classification), IsErr/Err carry the panic message, timeouts cancel and are reported, "
+             "negotiation faults move no tick of their transition, final-handler faults keep completed finals and roll back the others, parity = activity, and a probe Add1 of a state "
+             "with a handler executes afterwards (handler loop alive). Children processes attribute process-fatal errors to the running case.",
+        note="Stalls are released by a logical hand-shake (ErrHandlerTimeout seen on ErrInternal), never by timing. Rollback is judged for changed states with a bound final handler; Multi re-entries and "
+             "the Exception state are left free; the state after the fault is the time-before of the following transition. Unbounded persistent faults (a handler that panics for ever) are not cases.",
+        technique="fault injection at every enumerated handler position (panic / stall) with post-fault oracle and liveness probe; crash and hang attribution per case",
+        engine="faults", design_ref="5/C08"),
     "C11": dict(
         level="exploration",
         text="Each generated (schema rich in Auto/mutual-Remove/Add-fan/independent-Require structure, static veto table, history) case is executed on 64 fresh "
@@ -187,6 +199,8 @@ man = {
          "kind_free_text": "schema/history/handler generators, recording tracer, declarative clause oracles, single issuing goroutine"},
         {"name": "concmach", "path": "harness/cmd/{c04,c06,c12,c13}", "serves_properties": ["C04", "C06", "C12", "C13"],
          "kind_free_text": "gates/yields at verif schedule points, client-boundary histories, porcupine model, quiescence and stable-block (goroutine dump) classifier"},
+        {"name": "faults", "path": "harness/cmd/c08", "serves_properties": ["C08"],
+         "kind_free_text": "handler-position enumeration + fault scripts (panic, acknowledged stall, deadline stall, repeated and nested faults), liveness probe"},
         {"name": "registry", "path": "harness/{registry,cmd/c19gen}", "serves_properties": ["C19", "C20"],
          "kind_free_text": "static scan of /repo -> generated Go registry of shipped schemas; BFS/cone explorer"},
     ],
